@@ -164,8 +164,11 @@ InboxLostOp(m, op) ==
 InboxWrong(m) == InboxWrongOp(m, "ReceiveCall") \/ InboxWrongOp(m, "ReceiveReplyCall") \/ InboxLostOp(m, "ReceiveCall") \/ InboxLostOp(m, "ReceiveReplyCall")
 
 Clause(name, b) == IF b THEN {name} ELSE {}
+\* "a closed connection surfaces as an error": a connection that is merely being re-established is not closed - a call in flight across a
+\* reconnect waits for the ack that comes on the next connection. A connection-closed error before the application called Close is wrong.
+ClosedWhileOpen(m) == \E r \in RangeS(m.rets) : r.err = "connClosed" /\ (m.closeAt = 0 \/ r.i < m.closeAt)
 MonVerdict(m) ==
-    Clause("CallIdReused", CallIdReused(m))
+    Clause("CallIdReused", CallIdReused(m)) \cup Clause("ClosedWhileOpen", ClosedWhileOpen(m))
     \cup UNION { IF m.rets[k].op = "SendCallWait" THEN JudgeWait(m, m.rets[k]) ELSE JudgeAck(m, m.rets[k]) : k \in 1..Len(m.rets) }
     \cup UNION { JudgeSettled(m, m.calls[k]) : k \in 1..Len(m.calls) }
     \cup Clause("CallHung", CallHung(m)) \cup Clause("ReturnedTwice", ReturnedTwice(m))
